@@ -332,7 +332,14 @@ pub fn judge_fault_free(plan: &ClientPlan, run: &ClientRun) -> Judged {
                     j.stats.hit("probe.begin_refused_on_other_grounds");
                     continue;
                 }
-                if n_res != 1 || pk.iter().any(|p| matches!(p.cf, (0x06, 0x23) | (0x06, 0x25) | (0x06, 0x50) | (0x06, 0x01))) {
+                // (a client may configure lazily - identity, initialisation, pending query, end-of-day over an
+                // empty token map - inside its first call: forbidden is only what touches an open transaction)
+                let touches_open = pk.iter().any(|p| {
+                    p.cf == (0x06, 0x01)
+                        || (p.cf == (0x06, 0x50) && !open.is_empty())
+                        || (matches!(p.cf, (0x06, 0x23) | (0x06, 0x25)) && p.get(0x87) != Some(&[0xff, 0xff][..]) && p.get_bcd(0x87).map(|r| open.values().any(|x| *x as u64 == r)).unwrap_or(false))
+                });
+                if n_res != 1 || touches_open {
                     j.fail("C07", "begin_request", "begin", format!("accepted begin must send exactly one Reservation, sent {:?}", pk.iter().map(|p| p.cf).collect::<Vec<_>>()));
                     // whatever was sent: an abort the terminal delivered for the last reservation of the
                     // call is an error identifying its code (C20), 'device missing' apart
@@ -683,7 +690,15 @@ pub fn judge_fault_free(plan: &ClientPlan, run: &ClientRun) -> Judged {
             }
             OpSpec::ReadCard { card } if matches!(card.kind, CardKind::RawTlv(_)) => {}
             OpSpec::ReadCard { card } => {
-                if pk.len() != 1 || pk[0].cf != (0x06, 0xc0) {
+                // exactly one card-reading command; what else the call sends (a lazy configuration, say) is its
+                // own business as long as it books nothing and touches no open transaction
+                let n_rc = pk.iter().filter(|p| p.cf == (0x06, 0xc0)).count();
+                let touches = pk.iter().any(|p| {
+                    matches!(p.cf, (0x06, 0x22) | (0x06, 0x01))
+                        || (p.cf == (0x06, 0x50) && !open.is_empty())
+                        || (matches!(p.cf, (0x06, 0x23) | (0x06, 0x25)) && p.get(0x87) != Some(&[0xff, 0xff][..]) && p.get_bcd(0x87).map(|r| open.values().any(|x| *x as u64 == r)).unwrap_or(false))
+                });
+                if n_rc != 1 || touches {
                     j.fail("C18", "read_card_request", "read_card", format!("read_card sent {:?}", pk.iter().map(|p| p.cf).collect::<Vec<_>>()));
                     continue;
                 }
@@ -850,6 +865,7 @@ pub fn judge_under_faults(plan: &ClientPlan, run: &ClientRun) -> Judged {
         let pk: Vec<&Pkt> = reqs.iter().filter_map(|r| r.pkt.as_ref()).collect();
         match op {
             OpSpec::Begin { token, .. } => {
+                let open_before = open.clone();
                 let refused = open.len() == max || open.contains_key(token);
                 if refused {
                     j.stats.hit("probe.begin_refused");
@@ -877,8 +893,13 @@ pub fn judge_under_faults(plan: &ClientPlan, run: &ClientRun) -> Judged {
                         j.fail("C08", "reservation_fields", "begin", format!("a Reservation sent by begin({token:?}) does not carry amount {pre}, currency {cur} and reference AC/{token:?}"));
                     }
                 }
-                if pk.iter().any(|p| matches!(p.cf, (0x06, 0x23) | (0x06, 0x25) | (0x06, 0x50))) {
-                    j.fail("C07", "begin_request", "begin", "begin sent a reversal or end-of-day");
+                // (a lazy configuration inside the call is fine: forbidden is what touches an open transaction)
+                let open_receipts: Vec<u16> = open_before.values().flatten().copied().collect();
+                if pk.iter().any(|p| {
+                    (p.cf == (0x06, 0x50) && !open_before.is_empty())
+                        || (matches!(p.cf, (0x06, 0x23) | (0x06, 0x25)) && p.get(0x87) != Some(&[0xff, 0xff][..]) && p.get_bcd(0x87).map(|r| open_receipts.contains(&(r as u16))).unwrap_or(false))
+                }) {
+                    j.fail("C07", "begin_request", "begin", "begin reversed an open transaction or requested end-of-day over open ones");
                 }
                 if let Some(last) = reqs.iter().rev().find(|r| (r.frame[0], r.frame[1]) == (0x06, 0x22)) {
                     if let (Some(c), Some(false)) = (last.abort_sent, last.completed) {
